@@ -1,4 +1,4 @@
-package authz
+package vn
 
 // Native-only helpers for replaying solver models against the real code: real RSA keys, real
 // signed JWTs, real key sets. Never executed symbolically (guarded by vn.Symbolic()).
@@ -13,7 +13,6 @@ import (
 	"github.com/lestrrat-go/jwx/v2/jwk"
 	"github.com/lestrrat-go/jwx/v2/jwt"
 
-	"github.com/istio-ecosystem/authservice/internal/vn"
 )
 
 var (
@@ -95,10 +94,10 @@ func nativeJWT(name string, wellFormed bool, nonceKind int, nonce string, aud []
 	if err != nil {
 		panic(err)
 	}
-	return vn.Secret(string(signed), 16)
+	return Secret(string(signed), 16)
 }
 
 func init() {
-	vn.NativeJWT = nativeJWT
-	vn.NativeKeySet = nativeKeySet
+	NativeJWT = nativeJWT
+	NativeKeySet = nativeKeySet
 }
